@@ -68,8 +68,46 @@ Definition dec_case (l : list float) : option kcase :=
   | _ => None
   end.
 
+(* gain-offset with in-painting: is the fitted pair kept at (i, j), and is that decision within the derived bound of a boundary? *)
+Definition keep_near (c : kcase) (b : blk) (t : Q) (i j : Z) : bool * bool :=
+  let S := ksums b (k_kh c) (k_kw c) i j in
+  let tm := eps * scale_m S in let tc := eps * scale_c S in
+  let tr := tol_r2 S (fv (go_m S)) (fv (go_c S)) tm tc in
+  (go_keep S t, match go_r2 S, go_m S with
+                | Fin r, Fin m => Qle_bool (Qabs (r - t)) tr || Qle_bool (Qabs m) tm || ill tr 1
+                | _, _ => false end).
+(* fillnodata interpolates (inverse distance weighting): a filled offset is a convex combination of the offsets it was filled FROM, i.e. of
+   the kept pixels of the block (oracle hypothesis H_inpaint_hull).  [hull] = (min, max) of the observed offsets over the pixels the model
+   keeps or nearly keeps; None when there is no such pixel (nothing to fill from: fillnodata leaves the offsets alone). *)
+Definition fill_hull (c : kcase) (b : blk) (grid : list (Z * Z)) : option (Q * Q) :=
+  match k_md c, k_thresh c with
+  | MGainOffset, Some t =>
+    let '(sure, h) :=
+      fold_left (fun (acc : bool * option (Q * Q)) p =>
+        let '(i, j) := p in
+        if jmask b i j then
+          let '(kp, nr) := keep_near c b t i j in
+          if kp || nr then
+            (fst acc || (kp && negb nr),
+             match getpx (k_off c) i j, snd acc with
+             | Some o, None => Some (o, o)
+             | Some o, Some (lo, hi) => Some (if Qle_bool o lo then o else lo, if Qle_bool hi o then o else hi)
+             | None, a => a
+             end)
+          else acc
+        else acc) grid (false, None) in
+    (* without a pixel that is kept beyond doubt it is not known that anything was filled at all *)
+    if sure then h else None
+  | _, _ => None
+  end.
+Definition in_hull (hull : option (Q * Q)) (o : option Q) : bool :=
+  match hull, o with
+  | Some (lo, hi), Some x => let slack := eps * (Qabs lo + Qabs hi + 1) * 16 in Qle_bool (lo - slack) x && Qle_bool x (hi + slack)
+  | _, _ => true
+  end.
+
 (* per-pixel verdict: 0 = disagreement, 1 = agreement, 2 = agreement but uninformative (ill-conditioned / threshold tie) *)
-Definition px_check (c : kcase) (b : blk) (i j : Z) : nat :=
+Definition px_check (c : kcase) (b : blk) (hull : option (Q * Q)) (i j : Z) : nat :=
   let og := getpx (k_gain c) i j in let oo := getpx (k_off c) i j in let orr := getpx (k_r2 c) i j in
   let cfill := fun u v => valq (k_off c) u v in
   let r2ok (tol : Q) (m : fval) := if k_has_r2 c then close tol m orr || ill tol (fv m) else true in
@@ -101,7 +139,7 @@ Definition px_check (c : kcase) (b : blk) (i j : Z) : nat :=
     let tgf := eps * (fabs (go_regain S cf) + (Qabs (sY S) + Qabs (sN S * cf)) * inv_abs (sX S)) in
     (* fillnodata is an oracle: a finite filled offset c' gives the centroid gain; when nothing could be
        filled (offset still NaN) the re-estimated gain is NaN too *)
-    let filled_ok := r2ok tr (go_r2 S)
+    let filled_ok := r2ok tr (go_r2 S) && in_hull hull oo
                      && match oo with
                         | Some _ => close tgf (go_regain S cf) og
                         | None => match og with None => true | Some _ => false end
@@ -124,7 +162,8 @@ Definition verdicts (l : list float) : list nat :=
   match dec_case l with
   | None => [0%nat]
   | Some c => let b := mk_blk (k_H c) (k_W c) (k_src c) (k_ref c) in
-              map (fun p => px_check c b (fst p) (snd p)) (grid (k_H c) (k_W c))
+              let hull := fill_hull c b (grid (k_H c) (k_W c)) in
+              map (fun p => px_check c b hull (fst p) (snd p)) (grid (k_H c) (k_W c))
   end.
 Definition check (l : list float) : bool := forallb (fun v => negb (Nat.eqb v 0)) (verdicts l).
 (* non-trivial: at least half of the jointly valid pixels gave an informative agreement, and there is a mask or h <> w *)
